@@ -327,11 +327,16 @@ class C15(DecProp):
     id = "C15"
     thm_module = "H263V.Thm.C15"
     rule = ("P line pairs: 2..4 generated complete pictures (I, P, disposable P; Sorenson v0/v1, baseline, PLUSPTYPE; stuffing codewords; each padded with 0..7 zero bits "
-            "to a byte boundary) (a) concatenated in one reader and decoded call after call, (b) one fresh reader per picture on the same decoder; both against the model, and the "
+            "to a byte boundary; and, at reader level, scripts that consume more than 64 KiB before `commit` and read on) (a) concatenated in one reader and decoded call after call, (b) one fresh reader per picture on the same decoder; both against the model, and the "
             "two lines against each other on the implementation's own output (same result and same last picture after every call).  Non-trivial: at least two pictures decode; distinct by text.")
 
     def cases(self, tier, rng):
-        return core.gen_lines("concat", rng.randint(1, 10 ** 6), core.q(tier, 300, 5000))
+        out = core.gen_lines("concat", rng.randint(1, 10 ** 6), core.q(tier, 300, 5000))
+        # what a picture of more than 64 KiB does to the reader: `commit` after that many bytes, at every bit phase, then more
+        # reads (R lines, reader level: the Lean model of the picture layer is quadratic in the picture length, so pictures of
+        # that size are exercised at this level only)
+        out += long_source_scripts(rng, core.q(tier, 4, 40))
+        return out
 
     def nontrivial(self, case, model_out):
         return len(re.findall(r"(^P|\|) ok ", model_out)) >= 2
@@ -423,6 +428,18 @@ class C06(DecProp):
         return fails[:20]
 
 
+def long_source_scripts(rng, count):
+    """more than 64 KiB consumed before a commit (a big picture), ending at every bit phase, then more reads"""
+    out = []
+    for k in range(count):
+        nb = rng.randint(65600, 70000)
+        src = bytes(rng.randint(0, 255) for _ in range(nb))
+        consumed = 8 * rng.randint(65537, nb - 40) + (k % 8)
+        ops = [f"rd{rng.choice([1, 7, 8, 13])}", f"sk{consumed}", "cm", "rd32", f"pk{rng.choice([9, 17, 32])}", f"rd{rng.choice([3, 19, 32])}", "cm", "rd16"]
+        out.append(f"R 32 {src.hex()} {';'.join(ops)}")
+    return out
+
+
 def gen_reader_ops(rng, depth=0, n=None):
     ops = []
     n = n or rng.randint(1, 8)
@@ -467,7 +484,7 @@ class C14(Prop):
             "with_transaction (ok, fail), with_transaction_union (some, none, fail) and with_lookahead up to depth 2; widths 0..65) over sources of 0..12 bytes (random, sparse with planted "
             "start codes at every phase, all-zero runs) for result types u8/u16/u32/u64 on the real H263Reader, compared with the concrete reader model and with the specification "
             "machine (a plain bit list).  quick: bounded-exhaustive scripts of <= 2 ops over a width set on 4 sources + 20,000 random scripts; thorough: <= 3 ops + 400,000 random.  "
-            "Non-trivial: an op starts at a non-zero bit phase and some op straddles a byte boundary or the end of data; distinct by text.")
+            "Long sources (more than 64 KiB consumed, then commit at every bit phase, then further reads).  Non-trivial: an op starts at a non-zero bit phase and some op straddles a byte boundary or the end of data; distinct by text.")
     assumptions = ["signed reads of width 0 are outside the domain (two's complement of a 0-bit field is undefined; the code computes bits_needed - 1 on a u32)",
                    "`commit` inside an open transaction invalidates the checkpoint (documented precondition of rollback): scripts commit only at top level",
                    "a bare failed read_vlc keeps the bits it consumed (documented: position undefined); inside a combinator the position is restored"]
@@ -495,6 +512,7 @@ class C14(Prop):
             else:
                 src = bytes(rng.choice([0, 0, 0, rng.randint(0, 255)]) for _ in range(nb))
             out.append(f"R {rng.choice([8, 16, 32, 64])} {src.hex() or '-'} {';'.join(gen_reader_ops(rng))}")
+        out += long_source_scripts(rng, core.q(tier, 8, 80))
         return out
 
     def oracle_line(self, case):
